@@ -11,3 +11,6 @@ pub assume_specification<T, F: FnOnce(T) -> bool>[ Option::<T>::is_some_and ](o:
 pub assume_specification<'a, T: Copy>[ Option::<&'a T>::copied ](o: Option<&'a T>) -> (r: Option<T>)
     ensures r == (match o { Some(x) => Some(*x), None => None }),
 ;
+pub assume_specification[ str::trim ](s: &str) -> (r: &str)
+    ensures exists|a: int, b: int| 0 <= a <= b <= s@.len() && r@ == s@.subrange(a, b),
+;
